@@ -48,7 +48,9 @@ def compounds():
             ("1j*Restriction", 1j * pylops.Restriction(8, np.array([1, 4, 6]), dtype="complex128")),
             ("(1+2j)*(R@M)", (1 + 2j) * (pylops.Restriction(5, np.array([0, 3]), dtype="complex128") @ zoo._leaf(("c17", "M"), 5, 7, True))),
             ("Cc.H (wide)", Cc.H), ("Cc.T (wide)", Cc.T), ("Cc.H.conj()", Cc.H.conj()), ("(Cc.H)*D2", Cc.H * zoo._leaf(("c17", "D2"), 4, 4, True)),
-            ("HStack cplx", pylops.HStack([D, 2j * D])), ("-(1j*A)", -(1j * A)), ("(1j*A)**1", (1j * zoo._leaf(("c17", "S"), 3, 3)) ** 2)]
+            ("HStack cplx", pylops.HStack([D, 2j * D])),
+            ("tiny*FirstDerivative", 2.0 ** -34 * pylops.FirstDerivative(6)), ("Diagonal tiny", pylops.Diagonal(np.array([1.0, 2.0 ** -30, 2.0 ** -40, 3.0]))),
+            ("Diagonal tiny imag", pylops.Diagonal(np.array([1.0, 2.0 ** -35 * 1j, 2.0]), dtype="complex128")), ("-(1j*A)", -(1j * A)), ("(1j*A)**1", (1j * zoo._leaf(("c17", "S"), 3, 3)) ** 2)]
     return out
 
 
@@ -67,6 +69,14 @@ def explicit_cases(tier):
                     if np.linalg.matrix_rank(A) == min(m, n) and np.linalg.cond(A) < 50:
                         break
                 out.append(("MatrixMult%s %dx%d #%d" % ("C" if cplx else "R", m, n, rep), pylops.MatrixMult(A, dtype=A.dtype), A, r))
+    # special explicit matrices: complex symmetric (not Hermitian), complex diagonal, tiny entries, rank deficient wide
+    r = common.rng("c17", "special")
+    S = np.array([[2 + 1j, 1 - 1j, 0], [1 - 1j, 3j, 2], [0, 2, 1 + 2j]])
+    out.append(("MatrixMult complex-symmetric 3x3", pylops.MatrixMult(S, dtype=S.dtype), S, r))
+    Dg = np.diag(np.array([1 + 2j, 3 - 1j, 2j]))
+    out.append(("MatrixMult complex-diagonal 3x3", pylops.MatrixMult(Dg, dtype=Dg.dtype), Dg, r))
+    T = np.array([[3.0, 1, 0], [1, 2, 1], [0, 1, 4]]) * 2.0 ** -33
+    out.append(("MatrixMult tiny entries 3x3", pylops.MatrixMult(T), T, r))
     return out
 
 
@@ -83,7 +93,7 @@ def _explicit_extras(rec, op, C, r, cplx):
     m, n = op.shape
     if not (op.explicit and hasattr(op, "A") and isinstance(op.A, np.ndarray)):
         return
-    if np.linalg.matrix_rank(C) < min(m, n) or np.linalg.cond(C) > 1e3:
+    if np.linalg.matrix_rank(C, tol=1e-14 * np.abs(C).max()) < min(m, n) or np.linalg.cond(C) > 1e3:
         return
     rec["cplx"] = True          # eigenvalues of real matrices may be complex: evaluate over Gaussian rationals
     if m == n:
